@@ -37,7 +37,11 @@ func (p *BinaryProtocol) SkipNative(fieldType Type, maxDepth int) (err error) {
 	fsm := types.NewTStateMachine()
 	ret := native.TBSkip(fsm, &p.Buf[p.Read], left, uint8(fieldType))
 	if ret < 0 {
-		return
+		types.FreeTStateMachine(fsm)
+		if ret == -2 {
+			return io.EOF
+		}
+		return errInvalidDataSize
 	}
 	p.Read += int(ret)
 	types.FreeTStateMachine(fsm)
